@@ -1382,4 +1382,389 @@ Proof.
       match goal with |- context [if ?c then _ else _] => destruct c end; reflexivity.
 Qed.
 
+(* ------------------------------------------------------------------------------------------ *)
+(* poll_inner: the prologue, then one do_* function                                             *)
+
+Definition dispatch (f : fdl) (now : Z) (w : W) : res (fdl * W) :=
+  match poll_dispatch (kind_of (f_state f)) with
+  | TgUnreachable => Panic SiteUnreachable
+  | TgTodo => Panic SiteUnreachable
+  | TgDo DoListenToken => do_listen_token A f now w
+  | TgDo DoClaimToken => do_claim_token A f now w
+  | TgDo DoUseToken => do_use_token A ops f now w
+  | TgDo DoAwaitDataResponse => do_await_data_response A ops f now w
+  | TgDo DoPassToken => do_pass_token A f now w
+  | TgDo DoCheckTokenPass => do_check_token_pass A f now w
+  | TgDo DoActiveIdle => do_active_idle A f now w
+  | TgDo DoAwaitStatusResponse => do_await_status_response A f now w
+  end.
+
+(* what the prologue of poll_inner (connectivity, ongoing transmission, bus activity) may change *)
+Definition pre_rel (f f3 : fdl) (w w3 : W) : Prop :=
+  f_p f3 = f_p f /\ f_ring f3 = f_ring f /\ f_gap f3 = f_gap f /\ f_conn f3 = f_conn f /\
+  w_tx w3 = w_tx w /\ w_calls w3 = w_calls w /\ w_rx w3 = w_rx w /\ w_apps w3 = w_apps w /\
+  (f_state f3 = f_state f \/
+   (online_entry_kind (kind_of (f_state f)) = true /\ f_state f3 = ListenToken None 0) \/
+   (passive_entry_kind (kind_of (f_state f)) = true /\ f_state f3 = PassiveIdle)).
+
+Lemma pre_rel_refl f (w : W) : pre_rel f f w w.
+Proof. unfold pre_rel. repeat (split; [reflexivity|]). left. reflexivity. Qed.
+
+Lemma poll_inner_cases f now busy (w : W) f' w' :
+  poll_inner ops f now busy w = Ok (f', w') ->
+  pre_rel f f' w w' \/ exists f3 w3, pre_rel f f3 w w3 /\ dispatch f3 now w3 = Ok (f', w').
+Proof.
+  unfold poll_inner. intros E.
+  match type of E with bind ?r _ = _ => destruct r as [[[f2 w2] off]| |] eqn:Ep end; cbn [bind] in E; try discriminate E.
+  assert (Hpre : pre_rel f f2 w w2).
+  { destruct (f_conn f).
+    - destruct (f_state f); try discriminate Ep. injection Ep as <- <- _. apply pre_rel_refl.
+    - destruct (passive_entry_kind _) eqn:Ek.
+      + match type of Ep with context [trans A ?a ?b ?c] => destruct (trans A a b c) as [[f3 w3]| |] eqn:Et end; cbn [bind] in Ep; try discriminate Ep.
+        injection Ep as <- <- _. apply trans_spec in Et. destruct Et as [s' [Htr [-> ->]]].
+        unfold transition_passive_idle in Htr. destruct (assert_kind _ _); cbn [bind] in Htr; try discriminate Htr. injection Htr as <-.
+        unfold pre_rel. cbn. repeat (split; [reflexivity|]). right. right. split; [exact Ek|reflexivity].
+      + injection Ep as <- <- _. apply pre_rel_refl.
+    - destruct (online_entry_kind _) eqn:Ek.
+      + match type of Ep with context [trans A ?a ?b ?c] => destruct (trans A a b c) as [[f3 w3]| |] eqn:Et end; cbn [bind] in Ep; try discriminate Ep.
+        injection Ep as <- <- _. apply trans_spec in Et. destruct Et as [s' [Htr [-> ->]]].
+        unfold transition_listen_token in Htr. destruct (assert_kind _ _); cbn [bind] in Htr; try discriminate Htr. injection Htr as <-.
+        unfold pre_rel. cbn. repeat (split; [reflexivity|]). right. left. split; [exact Ek|reflexivity].
+      + injection Ep as <- <- _. apply pre_rel_refl. }
+  destruct off; [injection E as <- <-; left; exact Hpre|].
+  unfold check_for_ongoing_transmision in E.
+  destruct Hpre as [P1 [P2 [P3 [P4 [P5 [P6 [P7 [P8 P9]]]]]]]].
+  match type of E with context [if ?c then (_, _, true) else _] => destruct c end.
+  - injection E as <- <-. left. unfold pre_rel, mark_bus_activity, lba_get_or_insert. destruct (f_lba f2); cbn; repeat (split; [assumption|]); exact P9.
+  - right. unfold check_for_bus_activity in E.
+    match type of E with context [if Nat.ltb ?a ?b then _ else _] => destruct (Nat.ltb a b) end.
+    + eexists; eexists. split; [|exact E].
+      unfold pre_rel, mark_bus_activity, lba_get_or_insert. destruct (f_lba f2); cbn; repeat (split; [assumption|]); exact P9.
+    + exists f2, w2. split; [|exact E]. unfold pre_rel. repeat (split; [assumption|]). exact P9.
+Qed.
+
+Lemma dispatch_facts f now (w : W) f' w' : dispatch f now w = Ok (f', w') -> facts f f' w w' now.
+Proof.
+  unfold dispatch. intros E.
+  destruct (poll_dispatch (kind_of (f_state f))) as [ | |[ | | | | | | | ]]; try discriminate E;
+    [eapply do_listen_token_facts|eapply do_active_idle_facts|eapply do_claim_token_facts|eapply do_use_token_facts
+    |eapply do_await_data_response_facts|eapply do_pass_token_facts|eapply do_await_status_response_facts
+    |eapply do_check_token_pass_facts]; exact E.
+Qed.
+
+Lemma facts_entry f f3 f' (w w3 w' : W) now :
+  pre_rel f f3 w w3 -> facts f3 f' w3 w' now -> facts f f' w w' now.
+Proof.
+  intros [P1 [P2 [P3 [P4 [P5 [P6 [P7 [P8 P9]]]]]]]] Hf.
+  destruct P9 as [P9|P9].
+  - exact (facts_pre f f3 f' w w3 w' now P1 P2 P9 P3 P5 P6 P7 Hf).
+  - assert (Hst : f_state f3 = ListenToken None 0 \/ f_state f3 = PassiveIdle) by (destruct P9 as [[_ X]|[_ X]]; [left|right]; exact X).
+    clear P9. destruct Hf as [F1 [F2 [F3 F4]]].
+    assert (Hts : ts f3 = ts f) by (unfold ts; rewrite P1; reflexivity).
+    unfold facts. split; [congruence|]. split; [|split].
+    + intros Hn. rewrite <- P5 in Hn. destruct (F2 Hn) as [X|[wire [X Y]]]; [left; exact X|]. right. exists wire. split; [exact X|].
+      rewrite <- P6. destruct Y as [Y|[Yc [Y|[Y|Y]]]].
+      * left. exact Y.
+      * right. split; [exact Yc|]. left. unfold tx_token in *. rewrite <- Hts. exact Y.
+      * exfalso. destruct Y as [a [_ [_ [_ [_ [_ [[_ [att S]]|[_ [S|[a0 S]]]]]]]]]]; destruct Hst as [Q|Q]; rewrite Q in S; discriminate S.
+      * exfalso. destruct Y as [src [st [_ [[cc [S _]]|[nps [cc [S _]]]]]]]; destruct Hst as [Q|Q]; rewrite Q in S; discriminate S.
+    + intros src Hm. destruct (F3 src Hm) as [X|X].
+      * exfalso. destruct Hst as [Q|Q]; rewrite Q in X; discriminate X.
+      * right. rewrite <- P7, <- Hts. exact X.
+    + rewrite <- P3. destruct F4 as [X|X]; [left; exact X|]. right.
+      destruct X as [[att [S _]]|[S|[S|S]]].
+      * exfalso. destruct Hst as [Q|Q]; rewrite Q in S; discriminate S.
+      * exfalso. destruct Hst as [Q|Q]; rewrite Q in S; discriminate S.
+      * right. right. left. rewrite <- Hts. exact S.
+      * right. right. right. exact S.
+Qed.
+
+Lemma pre_rel_facts f f' (w w' : W) now : pre_rel f f' w w' -> facts f f' w w' now.
+Proof.
+  intros [P1 [P2 [P3 [P4 [P5 [P6 [P7 [P8 P9]]]]]]]].
+  destruct P9 as [P9|[[_ P9]|[_ P9]]].
+  - apply facts_silent; assumption.
+  - apply facts_quiet; try assumption. rewrite P9. reflexivity.
+  - apply facts_quiet; try assumption. rewrite P9. reflexivity.
+Qed.
+
+Lemma poll_inner_facts f now busy (w : W) f' w' :
+  poll_inner ops f now busy w = Ok (f', w') -> facts f f' w w' now.
+Proof.
+  intros H. apply poll_inner_cases in H. destruct H as [H|[f3 [w3 [Hpre Hd]]]].
+  - exact (pre_rel_facts _ _ _ _ _ H).
+  - exact (facts_entry _ _ _ _ _ _ _ Hpre (dispatch_facts _ _ _ _ _ Hd)).
+Qed.
+
+Lemma poll_unfold f now pin (apps : list A) f' o apps' calls :
+  poll ops f now pin apps = Ok (f', o, apps', calls) ->
+  exists w', poll_inner ops f now (tx_busy pin) (mkWorld (rx pin) None apps [] []) = Ok (f', w') /\
+             o = mkPhyOut (w_tx w') (w_rx w') /\ apps' = w_apps w' /\ calls = w_calls w'.
+Proof.
+  unfold poll, poll_traced. intros H.
+  destruct (poll_inner ops f now (tx_busy pin) _) as [[f1 w1]| |] eqn:E; cbn [bind] in H; try discriminate H.
+  injection H as <- <- <- <-. exists w1. repeat split; reflexivity.
+Qed.
+
+(* ------------------------------------------------------------------------------------------ *)
+(* whole-poll theorems                                                                          *)
+
+(* Every transmission of a poll is an application's telegram, a token, a GAP status request, or
+   a status reply - for every station state, every input and all applications. *)
+Theorem poll_transmissions f now pin (apps : list A) f' o apps' calls wire :
+  poll ops f now pin apps = Ok (f', o, apps', calls) -> tx o = Some wire ->
+  tx_class f f' now [] calls wire.
+Proof.
+  intros H Htx. apply poll_unfold in H. destruct H as [w' [Hi [-> [_ ->]]]]. cbn [tx] in Htx.
+  apply poll_inner_facts in Hi. destruct Hi as [_ [F2 _]]. cbn [w_tx w_calls] in F2.
+  destruct (F2 eq_refl) as [X|[wire' [X Y]]]; [rewrite X in Htx; discriminate Htx|].
+  rewrite X in Htx. injection Htx as <-. exact Y.
+Qed.
+
+(* A pending status request (the station will answer it) comes into being only by a status request
+   addressed to this station that was the last telegram of the receive buffer of this poll. *)
+Theorem poll_marks_last_request f now pin (apps : list A) f' o apps' calls src :
+  poll ops f now pin apps = Ok (f', o, apps', calls) -> marker (f_state f') = Some src ->
+  marker (f_state f) = Some src \/ last_request (rx pin) (ts f) src.
+Proof.
+  intros H Hm. apply poll_unfold in H. destruct H as [w' [Hi _]].
+  apply poll_inner_facts in Hi. destruct Hi as [_ [_ [F3 _]]]. exact (F3 src Hm).
+Qed.
+
+(* The GAP state changes only by the GAP step of a token visit (PassToken{do_gap}), during the
+   post-claim phase, or by a reset (claim after time-out, address collision). *)
+Theorem poll_gap_state_frame f now pin (apps : list A) f' o apps' calls :
+  poll ops f now pin apps = Ok (f', o, apps', calls) -> f_gap f' = f_gap f \/ gap_change f f'.
+Proof.
+  intros H. apply poll_unfold in H. destruct H as [w' [Hi _]].
+  apply poll_inner_facts in Hi. destruct Hi as [_ [_ [_ F4]]]. exact F4.
+Qed.
+
+Theorem poll_keeps_parameters f now pin (apps : list A) f' o apps' calls :
+  poll ops f now pin apps = Ok (f', o, apps', calls) -> f_p f' = f_p f.
+Proof.
+  intros H. apply poll_unfold in H. destruct H as [w' [Hi _]].
+  apply poll_inner_facts in Hi. destruct Hi as [F1 _]. exact F1.
+Qed.
+
+(* a GAP request as seen from outside: the poll transmits and ends waiting for the reply *)
+Definition gap_request (f' : fdl) (o : phy_out) (a : Z) : Prop :=
+  tx o <> None /\ (f_state f' = AwaitStatusResponse a \/ f_state f' = ClaimToken (StepScanAwaitResponse a)).
+
+(* C12_poll_in_gap, whole poll *)
+Theorem poll_gap_request_in_gap f now pin (apps : list A) f' o apps' calls a :
+  poll ops f now pin apps = Ok (f', o, apps', calls) -> gap_request f' o a ->
+  in_gap (ts f) (r_ns (f_ring f)) a /\ a <> ts f /\ a <> r_ns (f_ring f) /\
+  (gap_cursor_ok f -> 0 <= a < p_hsa (f_p f)) /\
+  tx o = Some (sr_wire a (ts f)) /\ calls = [] /\ f_ring f' = f_ring f /\ f_gap f' = GapDoPoll a /\
+  ((f_state f' = AwaitStatusResponse a /\ exists att, f_state f = PassToken true att) \/
+   (f_state f' = ClaimToken (StepScanAwaitResponse a) /\
+    (f_state f = ClaimToken StepScan \/ exists a0, f_state f = ClaimToken (StepScanAwaitResponse a0)))).
+Proof.
+  intros H [Htx Hst]. destruct (tx o) as [wire|] eqn:Et; [|contradiction Htx; reflexivity].
+  pose proof (poll_transmissions _ _ _ _ _ _ _ _ _ H Et) as Hc.
+  destruct Hc as [Y|[Yc [Y|[Y|Y]]]].
+  - exfalso. destruct Y as [cs [i [hp [er [_ [K|K]]]]]]; destruct Hst as [S|S]; rewrite S in K; discriminate K.
+  - exfalso. destruct Y as [da [_ [[_ [S'|S']]|[S'|[att S']]]]]; destruct Hst as [S|S]; rewrite S in S'; discriminate S'.
+  - destruct Y as [a' [Hw [Hin [Hr [Hring [Hg Hs]]]]]].
+    assert (a' = a).
+    { destruct Hs as [[S' _]|[S' _]]; destruct Hst as [S|S]; rewrite S in S'; try discriminate S'; injection S' as S'; symmetry; exact S'. }
+    subst a'. split; [exact Hin|]. split; [exact (in_gap_not_self _ _ _ Hin)|]. split; [exact (in_gap_not_ns _ _ _ Hin)|].
+    split; [exact Hr|]. split; [rewrite Hw; reflexivity|]. split; [exact Yc|]. split; [exact Hring|]. split; [exact Hg|exact Hs].
+  - exfalso. destruct Y as [src [st [_ [[cc [_ [_ S']]]|[nps [cc [_ [_ S']]]]]]]].
+    + destruct (ready_for_ring (f_ring f)); destruct Hst as [S|S]; rewrite S in S'; discriminate S'.
+    + destruct Hst as [S|S]; rewrite S in S'; discriminate S'.
+Qed.
+
+(* ------------------------------------------------------------------------------------------ *)
+(* C12_one_per_visit                                                                            *)
+
+Lemma pre_rel_state f f3 (w w3 : W) :
+  pre_rel f f3 w w3 -> online_entry_kind (kind_of (f_state f)) = false ->
+  passive_entry_kind (kind_of (f_state f)) = false -> f_state f3 = f_state f.
+Proof.
+  intros [_ [_ [_ [_ [_ [_ [_ [_ P9]]]]]]]] Ho Hp. destruct P9 as [P9|[[P9 _]|[P9 _]]]; [exact P9|congruence|congruence].
+Qed.
+
+(* the phase of a token visit after its GAP request: waiting for the reply, then passing the token *)
+Definition gap_done (s : state) : bool :=
+  match s with AwaitStatusResponse _ => true | PassToken false _ => true | _ => false end.
+
+(* After the GAP request of a visit (and equally after the post-claim scan) the station transmits
+   nothing but the token, to its NS; until then it stays in this phase, unless it gives the token up
+   because of an unexpected telegram. *)
+Theorem after_gap_request_step f now pin (apps : list A) f' o apps' calls :
+  poll ops f now pin apps = Ok (f', o, apps', calls) -> gap_done (f_state f) = true ->
+  calls = [] /\ f_gap f' = f_gap f /\
+  ( (tx o = None /\
+     (f_state f' = f_state f \/ f_state f' = PassToken false AttFirst \/ f_state f' = ActiveIdle None None 0))
+  \/ (tx o = Some (encode_token (r_ns (f_ring f)) (ts f)) /\
+      witness (f_ring f) (ts f) (r_ns (f_ring f)) = Ok (f_ring f') /\
+      (f_state f' = UseToken now None false \/ exists att, f_state f' = CheckTokenPass att)) ).
+Proof.
+  intros H Hgd. apply poll_unfold in H. destruct H as [w' [Hi [-> [_ ->]]]]. cbn [tx].
+  apply poll_inner_cases in Hi. destruct Hi as [Hpre|[f3 [w3 [Hpre Hd]]]].
+  - pose proof (pre_rel_state _ _ _ _ Hpre) as Hs.
+    destruct Hpre as [P1 [P2 [P3 [P4 [P5 [P6 [P7 [P8 P9]]]]]]]]. cbn in P5, P6.
+    split; [exact P6|]. split; [exact P3|]. left. split; [exact P5|]. left.
+    apply Hs; destruct (f_state f) as [ | | | | | | |[|] ?| | ]; try discriminate Hgd; reflexivity.
+  - pose proof (pre_rel_state _ _ _ _ Hpre) as Hs.
+    destruct Hpre as [P1 [P2 [P3 [P4 [P5 [P6 [P7 [P8 P9]]]]]]]]. cbn in P5, P6.
+    assert (Hs3 : f_state f3 = f_state f)
+      by (apply Hs; destruct (f_state f) as [ | | | | | | |[|] ?| | ]; try discriminate Hgd; reflexivity).
+    assert (Hts : ts f3 = ts f) by (unfold ts; rewrite P1; reflexivity).
+    unfold dispatch in Hd. rewrite Hs3 in Hd.
+    destruct (f_state f) as [ | | | | | | |[|] att| |a0] eqn:Es; try discriminate Hgd; cbn [kind_of poll_dispatch] in Hd.
+    + apply do_pass_token_spec in Hd. destruct Hd as [dg [att' [Est [Hp [Hc [Hca [Hap [Hrx Hcases]]]]]]]].
+      rewrite Hs3 in Est. injection Est as <- <-.
+      split; [congruence|].
+      destruct Hcases as [[T [S [G R]]]|[[D _]|[G [T0 [T [Wi St]]]]]].
+      * split; [congruence|]. left. split; [congruence|]. left. congruence.
+      * discriminate D.
+      * split; [congruence|]. right. rewrite Hts, P2 in *. split; [exact T|]. split; [exact Wi|].
+        destruct St as [[_ S]|[_ S]]; [left; exact S|right; exists att; exact S].
+    + apply do_await_status_response_spec in Hd.
+      destruct Hd as [a0' [Est [Hne [Hg0 [Hp [Hc [Hca [Hap [Hg [rest [received [Hrcv [Hrx Hcases]]]]]]]]]]]]].
+      split; [congruence|]. split; [congruence|].
+      destruct Hcases as [[_ [T [S R]]]|[[t [_ [_ [T [S _]]]]]|[[t [_ [_ [T [S R]]]]]|[_ [[T [S R]]|[T0 [T [Wi St]]]]]]]].
+      * left. split; [congruence|]. left. congruence.
+      * left. split; [congruence|]. right. left. exact S.
+      * left. split; [congruence|]. right. right. exact S.
+      * left. split; [congruence|]. right. left. exact S.
+      * right. rewrite Hts, P2 in *. split; [exact T|]. split; [exact Wi|].
+        destruct St as [[_ S]|[_ S]]; [left; exact S|right; exists AttFirst; exact S].
+Qed.
+
+(* ghost counter: GAP requests of the token-passing kind since the station last left the phase
+   "after the GAP request" (which, by after_gap_request_step, it leaves only by transmitting the
+   token or by giving it up) *)
+Definition is_pass_gap_request (f' : fdl) (o : phy_out) : bool :=
+  match tx o, f_state f' with Some _, AwaitStatusResponse _ => true | _, _ => false end.
+
+Definition visit_count (c : nat) (f' : fdl) (o : phy_out) : nat :=
+  if is_pass_gap_request f' o then S c else if gap_done (f_state f') then c else O.
+
+Fixpoint gap_counters (f : fdl) (c : nat) (ins : list (Z * phy_in * list A)) : list nat :=
+  match ins with
+  | [] => []
+  | (now, pin, apps) :: t =>
+      match poll ops f now pin apps with
+      | Ok (f', o, _, _) => let c' := visit_count c f' o in c' :: gap_counters f' c' t
+      | _ => []
+      end
+  end.
+
+Theorem one_gap_request_per_visit ins : forall f c,
+  (c = 0%nat \/ (c = 1%nat /\ gap_done (f_state f) = true)) ->
+  Forall (fun x => (x <= 1)%nat) (gap_counters f c ins).
+Proof.
+  induction ins as [|[[now pin] apps] t IH]; intros f c Hinv; cbn [gap_counters]; [constructor|].
+  destruct (poll ops f now pin apps) as [[[[f' o] apps'] calls]| |] eqn:Ep; try constructor.
+  - unfold visit_count. destruct (is_pass_gap_request f' o) eqn:Eg.
+    + unfold is_pass_gap_request in Eg. destruct (tx o) as [wire|] eqn:Et; [|discriminate Eg].
+      destruct (f_state f') as [ | | | | | | | | |a] eqn:Es'; try discriminate Eg.
+      assert (Hgr : gap_request f' o a) by (split; [rewrite Et; discriminate|left; exact Es']).
+      destruct (poll_gap_request_in_gap _ _ _ _ _ _ _ _ _ Ep Hgr) as [_ [_ [_ [_ [_ [_ [_ [_ Hst]]]]]]]].
+      destruct Hst as [[_ [att Hpt]]|[S _]]; [|rewrite Es' in S; discriminate S].
+      destruct Hinv as [->|[_ Hgd]]; [lia|]. rewrite Hpt in Hgd. discriminate Hgd.
+    + destruct (gap_done (f_state f')); [|lia]. destruct Hinv as [->|[-> _]]; lia.
+  - apply IH. unfold visit_count. destruct (is_pass_gap_request f' o) eqn:Eg.
+    + unfold is_pass_gap_request in Eg. destruct (tx o) as [wire|] eqn:Et; [|discriminate Eg].
+      destruct (f_state f') as [ | | | | | | | | |a] eqn:Es'; try discriminate Eg.
+      assert (Hgr : gap_request f' o a) by (split; [rewrite Et; discriminate|left; exact Es']).
+      destruct (poll_gap_request_in_gap _ _ _ _ _ _ _ _ _ Ep Hgr) as [_ [_ [_ [_ [_ [_ [_ [_ Hst]]]]]]]].
+      destruct Hst as [[_ [att Hpt]]|[S _]]; [|rewrite Es' in S; discriminate S].
+      destruct Hinv as [->|[_ Hgd]]; [right; split; reflexivity|]. rewrite Hpt in Hgd. discriminate Hgd.
+    + destruct (gap_done (f_state f')) eqn:Egd; [|left; reflexivity].
+      destruct Hinv as [->|[-> _]]; [left; reflexivity|right; split; reflexivity].
+Qed.
+
+(* the GAP step of a token visit: a poll in PassToken{do_gap: Yes} either waits (busy / pause) or
+   performs exactly gap_visit_step, requests the status of the new address iff there is one, and
+   passes the token otherwise *)
+Theorem pass_token_performs_gap_step f now pin (apps : list A) f' o apps' calls att :
+  poll ops f now pin apps = Ok (f', o, apps', calls) -> f_state f = PassToken true att ->
+  (tx o = None /\ f_state f' = f_state f /\ f_gap f' = f_gap f /\ f_ring f' = f_ring f) \/
+  (gap_visit_step f = Ok (f_gap f') /\
+   ( (exists a, f_gap f' = GapDoPoll a /\ f_state f' = AwaitStatusResponse a /\ tx o = Some (sr_wire a (ts f)) /\ f_ring f' = f_ring f)
+   \/ (exists n, f_gap f' = GapWaiting n /\ tx o = Some (encode_token (r_ns (f_ring f)) (ts f)) /\
+         witness (f_ring f) (ts f) (r_ns (f_ring f)) = Ok (f_ring f') /\
+         (f_state f' = UseToken now None false \/ f_state f' = CheckTokenPass att)) )).
+Proof.
+  intros H Es. apply poll_unfold in H. destruct H as [w' [Hi [-> [_ ->]]]]. cbn [tx].
+  apply poll_inner_cases in Hi. destruct Hi as [Hpre|[f3 [w3 [Hpre Hd]]]].
+  - pose proof (pre_rel_state _ _ _ _ Hpre) as Hs. rewrite Es in Hs. specialize (Hs eq_refl eq_refl).
+    destruct Hpre as [P1 [P2 [P3 [P4 [P5 [P6 [P7 [P8 P9]]]]]]]]. cbn in P5.
+    left. rewrite Es. repeat split; assumption.
+  - pose proof (pre_rel_state _ _ _ _ Hpre) as Hs. rewrite Es in Hs. specialize (Hs eq_refl eq_refl).
+    destruct Hpre as [P1 [P2 [P3 [P4 [P5 [P6 [P7 [P8 P9]]]]]]]]. cbn in P5, P6.
+    assert (Hts : ts f3 = ts f) by (unfold ts; rewrite P1; reflexivity).
+    unfold dispatch in Hd. rewrite Hs in Hd. cbn [kind_of poll_dispatch] in Hd.
+    apply do_pass_token_spec in Hd. destruct Hd as [dg [att' [Est [Hp [Hc [Hca [Hap [Hrx Hcases]]]]]]]].
+    rewrite Hs in Est. injection Est as <- <-.
+    unfold token_passed in Hcases. rewrite (gap_visit_step_ext f3 f P1 P2 P3), Hts, P2 in Hcases.
+    destruct Hcases as [[T [S [G R]]]|[[_ [a [Hstep [G [S [R [T0 T]]]]]]]|[[n [Hstep G]] [T0 [T [Wi St]]]]]].
+    + left. rewrite Es. repeat split; congruence.
+    + right. split; [rewrite G; exact Hstep|]. left. exists a. repeat split; congruence.
+    + right. split; [rewrite G; exact Hstep|]. right. exists n. split; [exact G|]. split; [exact T|]. split; [exact Wi|].
+      destruct St as [[_ S]|[_ S]]; [left|right]; exact S.
+Qed.
+
+(* the post-claim scan: every transmission is a GAP request (back to back, one per slot time);
+   the phase is left only with the GAP state Waiting, into PassToken{do_gap: No} - from where
+   after_gap_request_step applies - or by giving the token up *)
+Theorem claim_scan_step f now pin (apps : list A) f' o apps' calls :
+  poll ops f now pin apps = Ok (f', o, apps', calls) ->
+  (f_state f = ClaimToken StepScan \/ exists a0, f_state f = ClaimToken (StepScanAwaitResponse a0)) ->
+  calls = [] /\
+  ( (tx o = None /\
+     (f_state f' = f_state f \/ f_state f' = ClaimToken StepScan \/ f_state f' = ActiveIdle None None 0 \/
+      (f_state f' = PassToken false AttFirst /\ exists n, f_gap f' = GapWaiting n)))
+  \/ (exists a, gap_request f' o a /\ tx o = Some (sr_wire a (ts f))) ).
+Proof.
+  intros H Hst. apply poll_unfold in H. destruct H as [w' [Hi [-> [_ ->]]]]. cbn [tx].
+  assert (Hk : online_entry_kind (kind_of (f_state f)) = false /\ passive_entry_kind (kind_of (f_state f)) = false)
+    by (destruct Hst as [S|[a0 S]]; rewrite S; split; reflexivity).
+  apply poll_inner_cases in Hi. destruct Hi as [Hpre|[f3 [w3 [Hpre Hd]]]].
+  - pose proof (pre_rel_state _ _ _ _ Hpre (proj1 Hk) (proj2 Hk)) as Hs.
+    destruct Hpre as [P1 [P2 [P3 [P4 [P5 [P6 [P7 [P8 P9]]]]]]]]. cbn in P5, P6.
+    split; [exact P6|]. left. split; [exact P5|]. left. exact Hs.
+  - pose proof (pre_rel_state _ _ _ _ Hpre (proj1 Hk) (proj2 Hk)) as Hs.
+    destruct Hpre as [P1 [P2 [P3 [P4 [P5 [P6 [P7 [P8 P9]]]]]]]]. cbn in P5, P6.
+    assert (Hts : ts f3 = ts f) by (unfold ts; rewrite P1; reflexivity).
+    assert (Hdc : do_claim_token A f3 now w3 = Ok (f', w')).
+    { unfold dispatch in Hd. rewrite Hs in Hd. destruct Hst as [S|[a0 S]]; rewrite S in Hd; exact Hd. }
+    apply do_claim_token_spec in Hdc. destruct Hdc as [st0 [Est [Hp [Hc [Hca [Hap Hcases]]]]]].
+    split; [congruence|]. rewrite Hs in Est.
+    assert (Hscan : forall cur0,
+      ( (w_tx w' = w_tx w3 /\ f_state f' = f_state f3 /\ f_gap f' = f_gap f3)
+      \/ (w_tx w' = w_tx w3 /\ (exists n, f_gap f3 = GapWaiting n) /\ f_gap f' = f_gap f3 /\ f_state f' = PassToken false AttFirst)
+      \/ (w_tx w' = w_tx w3 /\ exists cur, f_gap f3 = GapDoPoll cur /\ next_gap_poll f3 cur = Ok (GapWaiting 0) /\
+            f_gap f' = GapWaiting 0 /\ f_state f' = f_state f3)
+      \/ (exists cur a, f_gap f3 = GapDoPoll cur /\ next_gap_poll f3 cur = Ok (GapDoPoll a) /\ f_gap f' = GapDoPoll a /\
+            f_state f' = ClaimToken (StepScanAwaitResponse a) /\ w_tx w3 = None /\ w_tx w' = Some (sr_wire a (ts f3))) ) ->
+      f_state f3 = ClaimToken StepScan -> cur0 = 0 ->
+      (w_tx w' = None /\
+       (f_state f' = f_state f \/ f_state f' = ClaimToken StepScan \/ f_state f' = ActiveIdle None None 0 \/
+        (f_state f' = PassToken false AttFirst /\ exists n, f_gap f' = GapWaiting n)))
+      \/ (exists a, gap_request f' (mkPhyOut (w_tx w') (w_rx w')) a /\ w_tx w' = Some (sr_wire a (ts f)))).
+    { intros _ Hsc Hs3 _.
+      destruct Hsc as [[T [S G]]|[[T [[n G0] [G S]]]|[[T [cur [_ [_ [G S]]]]]|[cur [a [G0 [N [G [S [T0 T]]]]]]]]]].
+      - left. split; [congruence|]. right. left. congruence.
+      - left. split; [congruence|]. right. right. right. split; [exact S|]. exists n. congruence.
+      - left. split; [congruence|]. right. left. congruence.
+      - right. exists a. split; [|congruence]. split; [cbn; rewrite T; discriminate|right; exact S]. }
+    destruct Hst as [S|[a0 S]]; rewrite S in Est; injection Est as <-.
+    + destruct Hcases as [Hr [Hrx Hsc]]. apply (Hscan 0 Hsc); [congruence|reflexivity].
+    + destruct Hcases as [Hne [Hg0 [rest [received [Hrcv [Hrx Hcs]]]]]].
+      destruct Hcs as [[_ [T [S' [G R]]]]|[[t [_ [_ [T [S' _]]]]]|[[t [_ [_ [T [S' _]]]]]|[_ [R Hsc]]]]].
+      * left. split; [congruence|]. left. congruence.
+      * left. split; [congruence|]. right. left. exact S'.
+      * left. split; [congruence|]. right. right. left. exact S'.
+      * destruct Hsc as [[T [S' G]]|[[T [N [G S']]]|[a [N [G [S' [T0 T]]]]]]].
+        -- left. split; [congruence|]. right. left. exact S'.
+        -- left. split; [congruence|]. right. left. exact S'.
+        -- right. exists a. split; [|congruence]. split; [cbn; rewrite T; discriminate|right; exact S'].
+Qed.
+
 End WithApps.
